@@ -605,9 +605,9 @@ func oracle(c *lib.Ctx, r *lib.RNG) []lib.OracleFail {
 }
 
 func Run(c *lib.Ctx) {
-	c.Rule = "correspondence: random decoder tables (≤4 decoders × ≤3 source types × ≤4 values; coherent-by-type, single-taker and arbitrary tables) with random decode sequences run on the real encoding.DecoderGroup and on the Lean model; a case is non-trivial when its trace shows ≥2 different result classes, distinct by table+trace. oracle: every (value,type) pair of a fixed pool decoded cold vs after random warm-up histories vs concurrently on the real registry; distinct by probe+history. cross-process oracle: the harness re-executes itself as fresh child processes which perform the same encodes and decodes through the process-global registries (a struct family with equal tags on differently named fields, untagged and inline fields, plus the fixed pool) in different random orders (every third one: all encodes first); every decode result must be the same in all processes. mutable sources: a fixed pool of sources with a mutable map (top level, in a slice, as a map value, nested) × target types, each decoded twice with the source compared against a snapshot before/after"
+	c.Rule = "correspondence: random decoder tables (≤4 decoders × ≤3 source types × ≤4 values; coherent-by-type, single-taker and arbitrary tables) with random decode sequences run on the real encoding.DecoderGroup and on the Lean model; a case is non-trivial when its trace shows ≥2 different result classes, distinct by table+trace. oracle: every (value,type) pair of a fixed pool decoded cold vs after random warm-up histories vs concurrently on the real registry; distinct by probe+history. cross-process oracle: the harness re-executes itself as fresh child processes which perform the same encodes and decodes through the process-global registries (a struct family with equal tags on differently named fields, untagged and inline fields, plus the fixed pool) in different random orders (every third one: all encodes first); every decode result must be the same in all processes. mutable sources: a fixed pool of sources with a mutable map (top level, in a slice, as a map value, nested) × target types, each decoded twice with the source compared against a snapshot before/after. re-used targets: every ordered pair and random 3–4-sequences of a fixed pool of sources (binaries, number lists, scalars, documents holding them) decoded into ONE variable of each target type ([]byte, *[]byte, struct with []byte/slice/map/pointer/any fields, []int, [][]byte, map[string][]byte, map[string]any, []any, any …), after which every source object must equal its snapshot and decode cold into fresh targets of 10 probe types; storage: every (source, target) pair decoded into a fresh target, the result overwritten, the source compared with its snapshot"
 	c.Assumptions = []string{
-		"the target's previous content is not part of the observable result (targets are fresh zero values)",
+		"the target's previous content is not part of the observable result: the model takes every decode target as a fresh zero value. What a decode leaves in a PRE-FILLED variable (the slice, pointer, map and struct decoders work in place by design) is not judged; the re-used-target family judges only that the sources are unchanged afterwards and still decode cold into fresh targets",
 		"decoders of the real registry satisfy the Coherent hypothesis of C17.group_pure; this is checked empirically by the cold/warm/concurrent oracle, not proved from the Go source",
 		"sync.Map and sync.RWMutex behave atomically (C20)",
 	}
@@ -620,6 +620,7 @@ func Run(c *lib.Ctx) {
 	}
 	fails := oracle(c, r.Fork())
 	fails = append(fails, mutableSources(c)...)
+	fails = append(fails, reusedTargets(c, r.Fork())...)
 	fails = append(fails, crossProcess(c, r.Fork())...)
 	c.Conclude("DecoderGroup.Decode ≈ Uniflow.Group.decode", ms, fails)
 }
